@@ -95,7 +95,12 @@ int main(int argc, char** argv) {
     log.Warning = [](const std::string& m) { vmon::J j; j.s("msg", m); vmon::log("ilog_warning", j); };
     log.Error = [](const std::string& m) { vmon::J j; j.s("msg", m); vmon::log("ilog_error", j); };
 
-    Shell shell(loc, log, "hub");
+    // the logger is handed over as a copy that its owner re-binds right after construction: the
+    // shell keeps what it needs and never logs through the caller's object
+    auto handed = std::make_unique<::Dzn::ILog>(log);
+    Shell shell(loc, *handed, "hub");
+    handed->Info = handed->Warning = handed->Error =
+        [](const std::string&) { violation("shell-logs-through-the-callers-logger-object", -1, -1, 0); };
     g_comp = static_cast<Comp*>(vmon::registry()["Arb.Hub"]);
     // protocol-following component (handlers run in the dispatcher thread only)
     g_comp->api.in.Acquire = [](Id who) {
